@@ -6,6 +6,10 @@ From Coq Require Import NArith ZArith.
 From Coq.Strings Require Import Byte.
 From Slim Require Import Base Keys Model BitmapRank BitmapRank2 Bits Msg.
 From Slim Require Wire EndToEnd.
+(* C04m: the scan APIs run over the message fields (MS lines of the driver) *)
+From Slim Require Scan ScanMsg.
+(* C18/C19: initLevels / Stat / String run over the message fields (MT lines of the driver) *)
+From Slim Require StatMsg.
 Extraction Language OCaml.
 Extraction "bitsx.ml"
   Byte.of_N Byte.to_N N.of_nat N.to_nat N.add N.mul
@@ -17,4 +21,6 @@ Extraction "bitsx.ml"
   Bits.encode_trie Bits.trie_wf Bits.init_vars Bits.node_count Bits.get_view Bits.get_node
   Bits.ith_leaf_bytes Bits.bitstr_of_nibs Bits.bitstr_len Bits.path_to_index Bits.index_to_path
   Bits.set_bits_below Msg.mgetid Msg.mget Msg.msearchid
-  EndToEnd.to_wire Wire.marshal_gen.
+  EndToEnd.to_wire Wire.marshal_gen
+  ScanMsg.miter_all ScanMsg.mscan_from ScanMsg.mscan_from_to Scan.stop_at Scan.never_stop
+  StatMsg.minit_levels StatMsg.mstat StatMsg.mrender.
